@@ -233,15 +233,18 @@ Fixpoint run_steps (now m : N) (k : nat) (steps : list step) (cur : option aw) (
 (* ---- the world ---- *)
 (* [w_owner]: the waker stored with each timer entry (coq/Timer/Futures.v [wakers]) *)
 Record world := { w_fes : sp; w_now : N; w_d0 : driver; w_d1 : driver;
-                  w_tasks : list task; w_nid : N; w_owner : wakers; w_mail : mailbox }.
+                  w_tasks : list task; w_nid : N; w_owner : wakers; w_mail : mailbox;
+                  w_snaps : list N   (* driver snapshots taken between events, see [snap1] *) }.
 
 Definition drv_of (w : world) (m : N) : driver := if m =? 0 then w_d0 w else w_d1 w.
 
 Definition set_drv (w : world) (m : N) (dr : driver) : world :=
   if m =? 0 then {| w_fes := w_fes w; w_now := w_now w; w_d0 := dr; w_d1 := w_d1 w;
-                    w_tasks := w_tasks w; w_nid := w_nid w; w_owner := w_owner w; w_mail := w_mail w |}
+                    w_tasks := w_tasks w; w_nid := w_nid w; w_owner := w_owner w; w_mail := w_mail w;
+                    w_snaps := w_snaps w |}
   else {| w_fes := w_fes w; w_now := w_now w; w_d0 := w_d0 w; w_d1 := dr;
-          w_tasks := w_tasks w; w_nid := w_nid w; w_owner := w_owner w; w_mail := w_mail w |}.
+          w_tasks := w_tasks w; w_nid := w_nid w; w_owner := w_owner w; w_mail := w_mail w;
+                    w_snaps := w_snaps w |}.
 
 Definition owner_of (own : wakers) (id : N) : list nat :=
   match waker_of own id with Some k => [k] | None => [] end.
@@ -292,7 +295,7 @@ Definition poll_task (wfix : bool) (now m : N) (k : nat) (w : world) : world * b
     ({| w_fes := w_fes w1; w_now := w_now w1; w_d0 := w_d0 w1; w_d1 := w_d1 w1;
         w_tasks := set_nth k tk' (w_tasks w1); w_nid := nid;
         w_owner := note_polls wfix k before (held_sleeps cur iv ++ sent_by k mail) (w_owner w1);
-        w_mail := mail |}, sw)
+        w_mail := mail; w_snaps := w_snaps w1 |}, sw)
   end.
 
 Definition waits_on (a : option aw) : option N :=
@@ -360,11 +363,11 @@ Definition module_event (wfix : bool) (t m : N) (spawn : list nat) (fire : bool)
   let w3 := set_drv w2 m dr3 in
   {| w_fes := match wk with Some x => fst (fst (sp_add (w_fes w3) x m)) | None => w_fes w3 end;
      w_now := t; w_d0 := w_d0 w3; w_d1 := w_d1 w3; w_tasks := w_tasks w3; w_nid := w_nid w3;
-     w_owner := w_owner w3; w_mail := w_mail w3 |}.
+     w_owner := w_owner w3; w_mail := w_mail w3; w_snaps := w_snaps w3 |}.
 
 Definition set_fes (w : world) (f : sp) : world :=
   {| w_fes := f; w_now := w_now w; w_d0 := w_d0 w; w_d1 := w_d1 w; w_tasks := w_tasks w;
-     w_nid := w_nid w; w_owner := w_owner w; w_mail := w_mail w |}.
+     w_nid := w_nid w; w_owner := w_owner w; w_mail := w_mail w; w_snaps := w_snaps w |}.
 
 (* task indices of module m that are spawned by at_sim_start *)
 Fixpoint start_tasks (m : N) (i : nat) (ts : list task) : list nat :=
@@ -384,23 +387,35 @@ Fixpoint inject (i : nat) (ts : list task) (f : sp) : sp :=
 
 Definition init_world (ts : list task) : world :=
   {| w_fes := inject 0 ts sp_new; w_now := 0; w_d0 := new_driver; w_d1 := new_driver;
-     w_tasks := ts; w_nid := 0; w_owner := []; w_mail := [] |}.
+     w_tasks := ts; w_nid := 0; w_owner := []; w_mail := []; w_snaps := [] |}.
+
+(* What the verification hook Driver::verif_snapshot reports of module m's driver, taken at
+   instant t between two events: t m  #slots (deadline #entries)*  flag next_wakeup *)
+Definition snap1 (t m : N) (dr : driver) : list N :=
+  [t; m; N.of_nat (length (pending dr))] ++
+  flat_map (fun sl => [fst sl; N.of_nat (length (snd sl))]) (pending dr) ++
+  match next_wakeup dr with Some x => [1; x] | None => [0; 0] end.
+
+Definition take_snaps (w : world) : world :=
+  {| w_fes := w_fes w; w_now := w_now w; w_d0 := w_d0 w; w_d1 := w_d1 w; w_tasks := w_tasks w;
+     w_nid := w_nid w; w_owner := w_owner w; w_mail := w_mail w;
+     w_snaps := w_snaps w ++ snap1 (w_now w) 0 (w_d0 w) ++ snap1 (w_now w) 1 (w_d1 w) |}.
 
 (* SimLifecycle::at_sim_start: one stage; modules in creation order *)
 Definition sim_start (wfix : bool) (w : world) : world :=
   let w0 := module_event wfix 0 0 (start_tasks 0 0 (w_tasks w)) false w in
-  module_event wfix 0 1 (start_tasks 1 0 (w_tasks w0)) false w0.
+  take_snaps (module_event wfix 0 1 (start_tasks 1 0 (w_tasks w0)) false w0).
 
 (* Runtime::run main loop: fetch the next event, dispatch it *)
 Definition loop_step (wfix : bool) (w : world) : world + world :=
   match sp_fetch (w_fes w) with
   | (f, OFetched pay t) =>
     let w1 := set_fes w f in
-    if pay <? 2 then inl (module_event wfix t pay [] true w1)
+    if pay <? 2 then inl (take_snaps (module_event wfix t pay [] true w1))
     else
       let k := N.to_nat (pay - 2) in
       match nth_error (w_tasks w1) k with
-      | Some tk => inl (module_event wfix t (t_mod tk) [k] false w1)
+      | Some tk => inl (take_snaps (module_event wfix t (t_mod tk) [k] false w1))
       | None => inl w1
       end
   | (_, _) => inr w
@@ -480,7 +495,8 @@ Definition decode (l : list N) : list task :=
   | _ => []
   end.
 
-(* output := (len log.. fin)*  ok  end_time  [8 if out of fuel]
+(* output := (len log.. fin)*  ok  end_time  snapshot*  [8 if out of fuel]
+   snapshot := t m #slots (deadline #entries)* flag next_wakeup -- both drivers after start-up and after every event
    log records: sleep/sleep_until/reset/drop/log/hand-over -> now;  timeout -> now ok;
    select -> now branch (2 = unbiased tie);  tick -> now tick_instant;
    receive+await -> instant of the receive, instant the received Sleep completed
@@ -493,7 +509,7 @@ Definition enc_task (tk : task) : list N :=
 
 Definition run_gen (wfix : bool) (input : list N) : list N :=
   let '(w, ok) := run_tasks wfix (decode input) in
-  flat_map enc_task (w_tasks w) ++ [b2n (forallb t_fin (w_tasks w)); w_now w] ++ (if ok then [] else [8]).
+  flat_map enc_task (w_tasks w) ++ [b2n (forallb t_fin (w_tasks w)); w_now w] ++ w_snaps w ++ (if ok then [] else [8]).
 
 (* the code as it is now: a registered Sleep follows the task that polls it *)
 Definition run (input : list N) : list N := run_gen true input.
